@@ -70,7 +70,7 @@ def _run_path(contract, case, schedule, lengths, budget, want_canaries=False):
                             "normal return although the contract demands %s" % E.__name__)
                 for clause in contract.post(S, case, env, outcome[1]):
                     nm, f = clause[0], clause[1]
-                    if nm in contract.bounded_clauses:
+                    if nm in contract.bounded_obligations(case):
                         rec.setdefault("bounded_skipped", set()).add(nm)
                         continue                # carried by the bounded stand-in; never evaluated here
                     if callable(f):
@@ -85,6 +85,9 @@ def _run_path(contract, case, schedule, lengths, budget, want_canaries=False):
                     for nm, f in contract.canaries(S, case, env, outcome[1]):
                         c.prove("canary." + nm, f)
                 rec["outcome"] = "return"
+            elif any(("raises[%s]" % k.__name__) in contract.bounded_obligations(case) for k in rz if issubclass(outcome[1], k)):
+                rec["outcome"] = "raise " + outcome[1].__name__
+                rec.setdefault("bounded_skipped", set()).add("raises[%s]" % outcome[1].__name__)
             else:
                 E = outcome[1]
                 rec["outcome"] = "raise " + E.__name__
@@ -98,6 +101,16 @@ def _run_path(contract, case, schedule, lengths, budget, want_canaries=False):
                             "raised although the contract's condition for it does not hold")
                     for nm, f in contract.post_exc(S, case, env, outcome[2]):
                         c.prove("post_exc." + nm, f)
+            # place failures in the contract's known regions (only when the path's own facts imply the region)
+            bad = [ob for ob in c.obligations if ob["status"] != "proved" and not ob["name"].startswith("canary.")]
+            if bad:
+                regions = contract.known_regions(S, case, env)
+                for tag, cond in regions.items():
+                    if c.implied(sym.to_z3(cond)):
+                        for ob in bad:
+                            if "@" not in ob["name"]:
+                                ob["name"] += "@" + tag
+                        break
             # vacuity: the path must be satisfiable
             r = c.final_check() if lengths is not None else c._check()
             rec["feasible"] = str(r)
@@ -166,7 +179,12 @@ def check_case(contract, case, tier="quick"):
         if p["outcome"] in ("out-of-subset", "needs-contract", "path-limit", "engine-crash"):
             summary["generation_errors"].append({"outcome": p["outcome"], "reason": p.get("reason"), "trace": p.get("trace")})
         if p.get("feasible") == "unsat":
-            summary["generation_errors"].append({"outcome": "vacuous-path", "reason": "path condition unsatisfiable at exit"})
+            # the cheap feasibility check let an infeasible branch through and the contradiction surfaced at exit: the path
+            # does not exist, its obligations are vacuous.  (A case with NO satisfiable path is a vacuity error, guarded in
+            # the bounded pass.)
+            summary["infeasible_paths_detected_late"] = summary.get("infeasible_paths_detected_late", 0) + 1
+            summary["paths"].append({"outcome": "infeasible (detected at exit)", "schedule": p.get("schedule"), "n_obligations": 0})
+            continue
         summary["paths"].append(pr)
         for ob in p["obligations"]:
             o = _strip(ob)
@@ -288,6 +306,12 @@ def contract_stub(contract_cls, also=()):
         tag = "call[%s]" % contract.name
         for nm, f in contract.requires(S, case, env):
             c.prove("%s.requires.%s" % (tag, nm), f, "precondition of %s at a call site" % contract.target)
+        for rtag, rcond in contract.known_regions(S, case, env).items():
+            if c.decide(sym.to_z3(rcond), "%s in known region %s" % (tag, rtag)):
+                beh = contract.region_behaviour.get(rtag)
+                if beh is None:
+                    raise NeedsContract("%s is called inside its known-finding region %r, where its contract proves nothing" % (contract.target, rtag))
+                raise beh("recorded behaviour of %s in region %s" % (contract.target, rtag))
         for E, cond in contract.raises(S, case, env).items():
             if isinstance(cond, tuple):
                 mst, my = sym.to_z3(cond[0]), sym.to_z3(cond[1])
@@ -299,12 +323,15 @@ def contract_stub(contract_cls, also=()):
         env["_fresh"] = "%s!%d" % (contract.name, next(_fresh_ids))
         result = contract.fresh_result(S, case, env)
         for clause in contract.post(S, case, env, result):
-            if clause[0] in contract.bounded_clauses:
+            if clause[0] in contract.bounded_obligations(case):
                 continue                        # not proved => must not be assumed by a caller
             f = clause[1]
             c.add(sym.to_z3(f() if callable(f) else f))
         c.assumed.append(contract.target)
         c.calls.append((contract.name, case, env, result))
+        if c._check() == z3.unsat:
+            raise EngineCrash("assuming the contract of %s made the path contradictory: one of its clauses is false at this call site "
+                              "(a contract used as a callee must not depend on its own test fixture)" % contract.target)
         return result
     replacement.__name__ = contract.target.split(":")[1].split(".")[-1]
-    return Stub(contract.target, replacement, also)
+    return Stub(getattr(contract, "stub_target", None) or contract.target, replacement, also)
